@@ -44,6 +44,64 @@ def size_roots(fx, fid):
     return set()
 
 
+_ip_memo = {}
+
+
+def size_roots_ip(fx, eng, fid):
+    """size_roots extended to private helpers: parameter i of a helper is a size root when every call site in the analysed
+    closure passes a value that is itself bounded by the input length there (constant / narrow, a length of an in-memory
+    collection, size-derived, or guarded by a size-derived bound on that path).  Least fixpoint over the call graph."""
+    key = id(eng)
+    if key not in _ip_memo:
+        roots = {f: set(size_roots(fx, f)) for f in eng.clo}
+        # call sites: callee -> [(caller, block, terminator)]
+        sites = {}
+        for caller in eng.clo:
+            it = eng.res.interps.get(caller)
+            if it is None:
+                continue
+            for b, t in it.body.calls():
+                p = callee_path(t["callee"])
+                if p in eng.clo and p != caller:
+                    sites.setdefault(p, []).append((caller, b, t))
+        changed = True
+        rounds = 0
+        while changed and rounds < 8:
+            changed = False
+            rounds += 1
+            for f in eng.clo:
+                fn = fx.fns[f]
+                if size_roots(fx, f) or not sites.get(f):
+                    continue
+                ins = fn.get("inputs_s") or []
+                for i, ty in enumerate(ins):
+                    r = "P%d" % (i + 1)
+                    if r in roots[f] or ty not in ("u64", "usize", "u32"):
+                        continue
+                    ok = True
+                    for caller, b, t in sites[f]:
+                        it = eng.res.interps[caller]
+                        st = it.out_states.get(b)
+                        if st is None:
+                            continue          # unreachable call site
+                        if i >= len(t["args"]):
+                            ok = False
+                            break
+                        sid, lo, hi, prov = it.read_op(st, t["args"][i], (b, "t"))
+                        sro = roots[caller]
+                        ub = derived_ub(it, st, sid) if sid is not None else None
+                        bounded = (hi is not None and hi <= NARROW) or (prov and all(x in ("C", "LEN") or x.startswith("S:") for x in prov)) \
+                            or (ub and size_derived_in(ub, sro)) or size_derived_in(prov, sro)
+                        if not bounded:
+                            ok = False
+                            break
+                    if ok:
+                        roots[f].add(r)
+                        changed = True
+        _ip_memo[key] = roots
+    return _ip_memo[key].get(fid, set())
+
+
 def size_derived_in(prov, sroots):
     if not prov:
         return False
@@ -112,6 +170,9 @@ def classify(fx, eng, fid, L, all_loops, iof):
     if nt is not None:
         kind, ity = LP.iter_kind(nt["callee"].get("full"))
         if kind == "collection":
+            n_const = fixed_array_len(body, loop_iter_local(body, L, all_loops))
+            if n_const is not None and n_const <= NARROW:
+                return "RANGE-CONST", {"iterator": short(ity)[:80], "end": n_const, "consuming": consuming, "count": "iteration over a fixed-size array"}
             return "ITER", {"iterator": short(ity)[:80], "consuming": consuming}
         if kind in ("range", "range_incl"):
             d = {"iterator": short(ity), "consuming": consuming}
@@ -136,7 +197,7 @@ def classify(fx, eng, fid, L, all_loops, iof):
                 chi = chi - slo
             prov = it.syms[c_sym].prov
             ub = derived_ub(it, st, c_sym)
-            sroots = size_roots(fx, fid)
+            sroots = size_roots_ip(fx, eng, fid)
             d.update({"trip": [clo, chi], "prov": sorted(prov), "ub": sorted(ub) if ub else None})
             if chi is not None and chi <= NARROW:
                 return "RANGE-CONST", d
@@ -239,6 +300,46 @@ def loop_iter_local(body, L, all_loops):
         else:
             break
     return l
+
+
+def fixed_array_len(body, local, depth=0):
+    """N when the iterator held in `local` walks (a reference to) a `[T; N]` array, else None"""
+    import re as _re
+    if local is None or depth > 8:
+        return None
+    m = _re.search(r"\[[^\[\];]+; (\d+)\]", body.local_ty(local))
+    if m and ("Iter" in body.local_ty(local) or body.local_ty(local).lstrip("&").replace("mut ", "").startswith("[")):
+        return int(m.group(1))
+    for (b, i, kind, payload) in body.defs().get(local, []):
+        ops = []
+        if kind == "assign":
+            rv = payload
+            if rv["k"] in ("use", "cast"):
+                ops = [rv["a"]]
+            elif rv["k"] == "ref":
+                pl = rv["place"]
+                m = _re.match(r"\[[^\[\];]+; (\d+)\]$", pl.get("ty", ""))
+                if m:
+                    return int(m.group(1))
+                if not pl["p"]:
+                    return fixed_array_len(body, pl["l"], depth + 1)
+                return None
+        elif kind == "call":
+            nm = strip_generics(payload["callee"].get("path") or "").split("::")[-1]
+            if nm in ("iter", "iter_mut", "into_iter", "deref", "deref_mut", "as_slice", "as_mut_slice", "enumerate", "rev", "copied", "cloned", "zip") and payload["args"]:
+                ops = payload["args"][:1]
+        for o in ops:
+            pl = op_place(o)
+            if pl is None:
+                continue
+            m = _re.match(r"(?:&mut |&)?\[[^\[\];]+; (\d+)\]$", pl.get("ty", ""))
+            if m:
+                return int(m.group(1))
+            if not pl["p"]:
+                r = fixed_array_len(body, pl["l"], depth + 1)
+                if r is not None:
+                    return r
+    return None
 
 
 def derives_from(body, local, root, depth=0, seen=None):
